@@ -27,7 +27,7 @@ def showCObs (st : CWState) (o : COut Nat) : String :=
   let fs := (sortBy (fun a b => a.1 < b.1) o.frames).map (fun (sid, f) => showC2S sid f)
   let ds := sortBy (· < ·) (o.dones.map (fun (sid, op, r) => s!"{sid}.{op}:{showRes r}"))
   let es := sortBy (· < ·) o.events
-  s!"F=[{joinWith " " fs}] D=[{joinWith " " ds}] E=[{joinWith ";" es}] T=[{showIds st.cli.table}] L={st.cli.lastStreamID}"
+  s!"F=[{joinWith " " fs}] D=[{joinWith " " ds}] E=[{joinWith ";" es}] T=[{showIds st.cli.table}] L={st.cli.lastStreamID} G={if st.cli.finished.isSome then 0 else 1},{cliWatchers st.cli},0"
 
 def parseS2C (kind : String) (args : List String) : Option (S2C Nat) :=
   match kind with
@@ -72,10 +72,19 @@ def cworldCmd (st : CWState) (cmd : String) (args : List String) : Option (CWSta
     match (kv args "m").bind parseHex with
     | none => some (st, "bad-op")
     | some m =>
-      let (cli, o, _) := st.cli.newStream st.cfg cs ss m (parseMD ((kv args "md").getD "-"))
+      let (cli, o, sid?) := st.cli.newStream st.cfg cs ss m (parseMD ((kv args "md").getD "-"))
         (kvNat args "timeout") (kv args "cancelled" == some "1")
-      let st' := { st with cli := cli }
-      some (st', showCObs st' o)
+      -- early=<n>: the peer answers the new_stream frame at once with headers a=1 and one complete
+      -- message of n bytes; in the model these are simply the next two frames
+      match kvNat args "early", sid? with
+      | some n, some sid =>
+        let (cli1, o1) := cli.onFrame st.cfg sid (.headers [("a", ["1"])])
+        let (cli2, o2) := cli1.onFrame st.cfg sid (.msg n (List.replicate n 0))
+        let st' := { st with cli := cli2 }
+        some (st', showCObs st' ((o.add o1).add o2))
+      | _, _ =>
+        let st' := { st with cli := cli }
+        some (st', showCObs st' o)
   | "c.call" =>
     match kvInt args "sid" with
     | none => some (st, "bad-op")
@@ -107,6 +116,22 @@ def cworldCmd (st : CWState) (cmd : String) (args : List String) : Option (CWSta
   | "c.eof" => let (cli, o) := st.cli.carrierEnds none; let st' := { st with cli := cli }; some (st', showCObs st' o)
   | "c.fail" => let (cli, o) := st.cli.carrierEnds (some "err:carrier_broke"); let st' := { st with cli := cli }; some (st', showCObs st' o)
   | "c.close" => let (cli, o) := st.cli.close none false; let st' := { st with cli := cli }; some (st', showCObs st' o)
+  | "x.closeerr" =>
+    -- a forward tunnel over real grpc-go ended by `cause`: what Done()/Err() report and what a later RPC does,
+    -- according to the client endpoint model (Cli.close / Cli.carrierEnds / Cli.newStream)
+    let cfg : CCfg := {}
+    let c0 : Cli Nat := { (Cli.start cfg) with phase := .running }
+    let c1 := match kv args "cause" with
+      | some "close" => (c0.close none false).1
+      | some "cancel" => (c0.carrierEnds (some "status:Canceled")).1
+      | some "deadline" => (c0.carrierEnds (some "status:DeadlineExceeded")).1
+      | some "server-stop" => (c0.carrierEnds (some "status:Unavailable")).1
+      | _ => c0
+    let err := match c1.finished with | none => "open" | some none => "nil" | some (some e) => e
+    let late := match (c1.newStream cfg true true [] [] none false).2.1.dones with
+      | [(_, "new", .other _)] => "fails"
+      | _ => "proceeds"
+    some (st, s!"done={if c1.finished.isSome then "closed" else "open"} err={err} late={late}")
   | _ => none
 
 end Driver
